@@ -51,10 +51,9 @@ Supports(op, ta, tb, ct) ==
 
 \* left open (any value-or-error, never a panic):
 \*  - operators.md lists * / % | ^ &^ << >> (and + -) for char with char but not &
-\*  - bool is "untyped 1 or 0", but the conversion tables have no bool row: bool mixed
-\*    with float or char is accepted both as the converted value and as TypeError
-Unspecified(op, ta, tb) == \/ op = "&" /\ Eff(ta, tb) = "char" /\ Eff(tb, ta) = "char"
-                           \/ "bool" \in {ta, tb} /\ ({ta, tb} \cap {"float", "char"}) # {}
+\* (bool is "untyped 1 or 0 before arithmetic operation" and "if LHS or RHS is of char / float type, other operand is
+\*  converted": a bool next to a float or a char is that float or char 1 / 0, on either side)
+Unspecified(op, ta, tb) == op = "&" /\ Eff(ta, tb) = "char" /\ Eff(tb, ta) = "char"
 
 \* expected kind of an arithmetic cell between numeric operands:
 \*   "TypeError" | "ZeroDivisionError" | "ShiftError" (any uGO error) | "value"
